@@ -60,7 +60,16 @@ def snap_command(input_workload, output_file, ticks_per_second, force=False):
             # Modify arrival_seconds if it's set (not empty)
             if row['arrival_seconds'].strip():
                 original = float(row['arrival_seconds'])
-                snapped = math.floor(original * ticks_per_second) / ticks_per_second
+                # latest tick boundary (tick / ticks_per_second) that is not after the
+                # original time.  The float product can be off by one in either
+                # direction (0.29 * 100 is 28.999999999999996), so the candidate is
+                # checked against the boundaries themselves.
+                tick = math.floor(original * ticks_per_second)
+                if tick / ticks_per_second > original:
+                    tick -= 1
+                elif (tick + 1) / ticks_per_second <= original:
+                    tick += 1
+                snapped = tick / ticks_per_second
                 row['arrival_seconds'] = snapped
 
             writer.writerow(row)
